@@ -710,18 +710,36 @@ func (g *Gen) NextStep(r *Runner) *Step {
 			}
 		}
 	}
+	if g.OutOfOrder && !r.Deaf && !g.NoSync {
+		add(2, func() *Step { return &Step{Op: "deaf"} })
+	}
 	total := 0
 	for _, c := range cands {
 		total += c.w
 	}
-	x := g.R.Intn(total)
-	for _, c := range cands {
-		if x < c.w {
-			return c.f()
+	pick := func() *Step {
+		x := g.R.Intn(total)
+		for _, c := range cands {
+			if x < c.w {
+				return c.f()
+			}
+			x -= c.w
 		}
-		x -= c.w
+		return cands[0].f()
 	}
-	return cands[0].f()
+	s := pick()
+	if r.Deaf {
+		// a short period; what needs the plugin (updates, reconfiguration, timers) ends it
+		if g.R.Chance(1, 4) || s.Op == "reconf" || s.Op == "update" || s.Op == "coldstart-done" || s.Op == "sync" {
+			return &Step{Op: "sync"}
+		}
+		if s.Op == "create" {
+			if p := r.M.Pods[s.Pod]; p != nil && p.QoS != "BestEffort" {
+				s.Req, s.Lim, s.MemLim, s.MemReq = 100, 100, 64<<20, 64<<20
+			}
+		}
+	}
+	return s
 }
 
 // ReconfStep: identical configuration, a valid change, or an invalid one.
